@@ -1,6 +1,7 @@
 (* C12/Props.v — property theorems only *)
 From Coq Require Import ZArith List Bool.
-From FV Require Import Base.Ser Base.Res C12.Model C12.Proofs.
+From FV Require Import Base.Ser Base.Res C12.Model C12.Proofs C12.ModelSpec.
+From FV Require C12.ProofsSpec.
 Import ListNotations.
 Open Scope Z_scope.
 
@@ -17,3 +18,24 @@ Theorem generalize_preserves : forall o args cs,
   proved_op o = true -> generalize o args = Ok cs -> interp_all cs = interp o args.
 Proof. exact Proofs.generalize_preserves. Qed.
 Print Assumptions generalize_preserves.
+
+(* the specialiser (specializeCommands, phases 1-6, any maxstack) with preserveTopology: what the interpreter draws from the
+   specialised commands is, segment for segment, the input with successive rmoveto's combined (p1) *)
+Theorem specialize_keeps_topology : forall ms segs,
+  interp_all (specialize true ms segs) = Ok (p1 segs).
+Proof. exact ProofsSpec.specialize_keeps_topology. Qed.
+Print Assumptions specialize_keeps_topology.
+
+(* without preserveTopology: the specialised commands are always well-formed for the interpreter, and what they draw differs
+   from the input only by the documented merges (fill_eq: zero-length lines deleted, flat curves demoted to lines, adjacent
+   horizontal / vertical lines added up, successive moves combined) *)
+Theorem specialize_keeps_fill : forall ms segs,
+  exists out, interp_all (specialize false ms segs) = Ok out /\ fill_eq out segs.
+Proof. exact ProofsSpec.specialize_keeps_fill. Qed.
+Print Assumptions specialize_keeps_fill.
+
+(* in both modes the pen ends where it ended before (so whatever follows is drawn in the same place) *)
+Theorem specialize_same_endpoint : forall pt ms segs,
+  exists out, interp_all (specialize pt ms segs) = Ok out /\ total_delta out = total_delta segs.
+Proof. exact ProofsSpec.specialize_same_endpoint. Qed.
+Print Assumptions specialize_same_endpoint.
